@@ -13,11 +13,13 @@ import (
 
 const rule = "A case is one history on a fresh database (hashmap ±shadow-delete, bbolt, a harness-owned injected storage, the runtime registry): " +
 	"query objects (key prefix × condition tree over N/S, shared between subscriptions and hooks), subscribe/cancel through interfaces with all " +
-	"Local/Internal/AlwaysMakeSecret/AlwaysMakeCrownjewel combinations, hook register/cancel (phases × pass/veto/replace), Put/PutNew/Delete/MakeSecret/" +
-	"MakeCrownJewel/SetAbsoluteExpiry/InsertValue/Get/PushUpdate on keys inside and outside the prefixes with all flag combinations, feeds drained after every " +
+	"Local/Internal/AlwaysMakeSecret/AlwaysMakeCrownjewel/AlwaysSetAbsoluteExpiry combinations, hook register/cancel (phases × pass/veto/replace), Put/PutNew/Delete/MakeSecret/" +
+	"MakeCrownJewel/SetAbsoluteExpiry/SetRelativateExpiry (duration 0 or -1)/InsertValue/Get/Exists/PushUpdate on keys inside and outside the prefixes with all flag combinations, feeds drained after every " +
 	"operation (or not at all until > 1000 writes: overflow kind; fullfeed kind: one subscription is never read until its feed is full and beyond while 1–3 others on the same writes, subscribed before and after it, are read all the time or now and then — drain1), raw storage reads around vetoed writes, delayed-write interfaces, malformed lines; " +
 	"config-push / config-db kinds: the real config package injected as database — option updates pushed, and its StorageInterface driven through the database interface " +
 	"(Put with / without / null Value, Delete, unregistered key, Get) and the config API (SetConfigOption, ReplaceConfig) with exact/prefix/other subscriptions, before and after cancel; " +
+	"purge kind: Interface.Purge of a subscribed prefix on a fresh bbolt database (0–5 records, interfaces with all / some / no privileges), implementation only; " +
+	"putmany lines: one-record batches through Interface.PutMany on hashmap / bbolt; " +
 	"concurrent kind: recorded traces of writers vs. Subscribe vs. Cancel (forced at the verif event points) replayed through the interleaving model. " +
 	"hconc kind: recorded traces of gets / puts (pre-get, post-get, pre-put hook phases; pass and veto hooks with prefix × condition queries) vs. 0–2 concurrent RegisteredHook.Cancel per hook, " +
 	"with the operation parked inside an earlier hook's call while a later hook is cancelled, Cancel called during a call of the same hook, Cancel inside its locked section vs. arriving operation, random pairs; replayed through the interleaving model of hooksLock. " +
@@ -27,7 +29,7 @@ const rule = "A case is one history on a fresh database (hashmap ±shadow-delete
 var (
 	genKeys     = []string{"a/x", "a/y", "a/b/z", "b/x", "ab", "a/x/1", "c"}
 	genPrefixes = []string{"-", "a", "a/", "a/b", "b", "a/x", "zz", "-", "a/"}
-	genIfaces   = []string{"LI", "LI", "LI", "LI", "L", "I", "-", "-", "LIS", "LIC", "S", "C", "IS", "LC", "LISC"}
+	genIfaces   = []string{"LI", "LI", "LI", "LI", "L", "I", "-", "-", "LIS", "LIC", "S", "C", "IS", "LC", "LISC", "LIE", "E", "LSE"}
 	genStrs     = []string{"foo", "bar", "fob", "baz"}
 	genFlags    = []string{"-", "-", "-", "-", "-", "-", "s", "c", "sc", "d", "p", "f", "sd", "cf", "dp"}
 )
@@ -161,6 +163,15 @@ func (g *seqGen) op() {
 		if rng.Intn(100) < 15 {
 			op = "putnew"
 		}
+		if (g.kind == "hashmap" || g.kind == "bbolt") && rng.Intn(100) < 4 {
+			// a batch through Interface.PutMany (documented to skip hooks and subscribers: known finding)
+			key := g.key()
+			g.emit(fmt.Sprintf("putmany %s %s %d %s %s", pick(rng, []string{"LI", "LI", "LI", "L", "-", "LIS"}), key, rng.Intn(10), pick(rng, genStrs), pick(rng, []string{"-", "-", "s", "d"})))
+			g.emit("drain")
+			g.emit("raw " + key)
+			g.r.Count("op:putmany")
+			return
+		}
 		key := g.key()
 		raw := g.vetoes && rng.Intn(100) < 50
 		if raw {
@@ -174,7 +185,7 @@ func (g *seqGen) op() {
 		g.writes++
 		g.r.Count("op:" + op)
 	case x < 72:
-		op := pick(rng, []string{"del", "del", "mksec", "mkcj", "exp", "ins"})
+		op := pick(rng, []string{"del", "del", "del", "mksec", "mksec", "mkcj", "mkcj", "exp", "exp", "ins", "ins", "relexp"})
 		key := g.key()
 		raw := rng.Intn(100) < 65
 		if raw {
@@ -185,6 +196,8 @@ func (g *seqGen) op() {
 			g.emit(fmt.Sprintf("exp %s %s %s", pick(rng, genIfaces), key, pick(rng, []string{"p", "f"})))
 		case "ins":
 			g.emit(fmt.Sprintf("ins %s %s %d", pick(rng, genIfaces), key, rng.Intn(10)))
+		case "relexp":
+			g.emit(fmt.Sprintf("relexp %s %s %s", pick(rng, genIfaces), key, pick(rng, []string{"0", "-1"})))
 		default:
 			g.emit(fmt.Sprintf("%s %s %s", op, pick(rng, genIfaces), key))
 		}
@@ -197,8 +210,13 @@ func (g *seqGen) op() {
 	case x < 84:
 		key := g.key()
 		g.emit("raw " + key) // what is stored: the monitor's own reading of the get-hook clause starts from it
-		g.emit(fmt.Sprintf("get %s %s", pick(rng, genIfaces), key))
-		g.r.Count("op:get")
+		if rng.Intn(100) < 25 {
+			g.emit(fmt.Sprintf("exists %s %s", pick(rng, genIfaces), key))
+			g.r.Count("op:exists")
+		} else {
+			g.emit(fmt.Sprintf("get %s %s", pick(rng, genIfaces), key))
+			g.r.Count("op:get")
+		}
 	case x < 92:
 		if g.kind == "inj" || g.kind == "reg" || rng.Intn(100) < 30 {
 			g.emit(fmt.Sprintf("push %s %d %s %s", g.key(), rng.Intn(10), pick(rng, genStrs), pick(rng, genFlags)))
@@ -415,8 +433,8 @@ func genMalformed(r *hxlib.Run) hxlib.Case {
 	rng := r.Rng
 	bad := []string{"frob", "put", "put LI", "put LI a/x 1 foo", "put XX a/x 1 foo -", "put LI a/x one foo -", "put LI a/x 1 foo zz",
 		"sub 0 LI 99", "sub x LI 0", "cancel 99", "cancel", "unhook 7", "hook 0 0 p p", "hook 0 0 s1 p p", "hook 0 0 q p p", "q 0 - T",
-		"q 5 - gt", "q 6 - & gt 1", "q 7 A T", "q 8 - T T", "get LI", "get LI A", "del QQ a/x", "exp LI a/x z", "ins LI a/x x", "db hashmap 0",
-		"db bbolt 1", "db foo 0", "raw", "raw A", "flush LI", "drain now", "sizes 1", "push a/x 1 foo", "put LI+x a/x 1 foo -", "get LI+w a/x",
+		"q 5 - gt", "q 6 - & gt 1", "q 7 A T", "q 8 - T T", "get LI", "get LI A", "exists LI", "exists LI+w a/x", "relexp LI a/x 5", "relexp LI a/x", "del QQ a/x", "exp LI a/x z", "ins LI a/x x", "db hashmap 0",
+		"db bbolt 1", "db foo 0", "raw", "raw A", "flush LI", "drain now", "sizes 1", "push a/x 1 foo", "put LI+x a/x 1 foo -", "get LI+w a/x", "putmany LI+w a/x 1 foo -", "putmany LI a/x 1 foo", "putmany ZZ a/x 1 foo -",
 		"sub 3 LI+w 0", "put L+w a/x 1 foo -"}
 	var l []string
 	for i, n := 0, rng.Intn(3); i < n; i++ {
@@ -487,12 +505,18 @@ func gen(r *hxlib.Run, emit func(hxlib.Case)) {
 	}
 	for i, n := 0, r.Budget(60, 600); i < n; i++ {
 		toks := []string{"cfgops"}
+		if r.Rng.Intn(100) < 60 {
+			toks = append(toks, pick(r.Rng, cfgTypeTokens))
+		}
 		for j, m := 0, 2+r.Rng.Intn(7); j < m; j++ {
 			t := pick(r.Rng, cfgTokens)
 			toks = append(toks, t)
 			r.Count("cfgop:" + t)
 		}
 		emit(hxlib.Case{Lines: []string{strings.Join(toks, " ")}, Kind: "config-db", NonTrivial: true, NoModel: true})
+	}
+	for i, n := 0, r.Budget(12, 120); i < n; i++ {
+		emit(hxlib.Case{Lines: []string{fmt.Sprintf("purgecase %d %s", r.Rng.Intn(6), pick(r.Rng, []string{"LI", "LI", "L", "I", "-"}))}, Kind: "purge", NonTrivial: i < 6, NoModel: true})
 	}
 	genConcurrent(r, emit)
 	genHConcurrent(r, emit)
